@@ -205,6 +205,9 @@ def extra_cases(rng, tier):
             [spd_stack2(k_, 3), R.distinct(rng, (3,))], [0, 1], False)
     for nn, sh in ((2, (1,)), (3, (2,)), (2, (2,)), (2, (1, 3)), (4, (3,))):
         add("diff", "n=%d on shape %s (more differences than elements)" % (nn, sh), (lambda m, z, nn=nn: m.diff(z, n=nn, axis=0)), [R.iarr(rng, sh)], [0], False, modes=("rev",))
+    for nn, sh in ((3, (2,)), (5, (3,))):
+        add("diff", "n=%d on a COMPLEX array of shape %s (more differences than elements)" % (nn, sh), (lambda m, z, nn=nn: m.diff(z, n=nn, axis=0)),
+            [R.iarr(rng, sh) + 1j * R.iarr(rng, sh)], [0], False, modes=("rev",))
     # ---- (0i) more option spellings ----
     la, lb = R.iarr(rng, (2,)), R.iarr(rng, (2,))
     for kw in ({"axis": 1}, {"axis": -1}, {"axis": 0}, {"endpoint": False, "axis": 1}, {"endpoint": False}):
@@ -249,6 +252,10 @@ def extra_cases(rng, tier):
                   ("reshape(x.T.copy-free slice, order='A')", lambda m, z: m.reshape(z.T[::-1], (6,), order="A"))):
         add("reshape", nm, f, [i23b], [0], True)
     add("reshape", "order='A' of a Fortran-ordered argument", (lambda m, z: m.reshape(z, (3, 2), order="A")), [onp.asfortranarray(i23b)], [0], True)
+    for nm_, f_ in (("ravel(x, order='K')", lambda m, z: m.ravel(z, order="K")), ("x.ravel('K')", lambda m, z: z.ravel("K")),
+                    ("reshape(x, (6,), order='K')-free: flatten('K')", lambda m, z: z.flatten("K"))):
+        add("ravel", nm_ + " of a Fortran-ordered argument ('A')", f_, [onp.asfortranarray(i23b)], [0], True)
+        add("ravel", nm_ + " of a C-ordered argument ('A')", f_, [i23b], [0], True)
     add("ravel", "order='A' of a Fortran-ordered argument", (lambda m, z: m.ravel(z, order="A")), [onp.asfortranarray(i23b)], [0], True)
     for k_ in (2, 3, 4):
         add("array", "list of traced scalars, ndmin=%d" % k_, (lambda m, a, b, k_=k_: m.array([a, 2.0, b], ndmin=k_)), [1.5, -0.5], [0, 1], True)
@@ -260,6 +267,10 @@ def extra_cases(rng, tier):
         add("array", "array(x, dtype=%s) (piecewise constant)" % (dt if isinstance(dt, str) else dt.__name__), (lambda m, z, dt=dt: m.array(z, dtype=dt) * 1.0 + 0.0 * z), [R.half_ints(rng, (2, 3))], [0], False)
         add("array", "array(x, %s) positional dtype" % (dt if isinstance(dt, str) else dt.__name__), (lambda m, z, dt=dt: m.array(z, dt) * z), [R.half_ints(rng, (2, 3))], [0], False)
     # ---- conversions and constructors whose result type / shape differs from the argument's (batch 10 reports) ----
+    for dt in (int, bool):
+        add("array", "list of traced entries converted to %s (piecewise constant)" % dt.__name__, (lambda m, z, dt=dt: m.array([z, z + 0.25], dtype=dt) * 1.0 + 0.0 * z), [2.5], [0], False)
+        add("array", "list of traced rows converted to %s" % dt.__name__, (lambda m, z, dt=dt: m.array([z, z + 0.25], dt) * 1.0 + 0.0 * m.sum(z)), [R.half_ints(rng, (3,))], [0], False)
+    add("array", "list of traced entries, dtype=float32, then summed", (lambda m, z: m.sum(m.array([z, 2.0 * z], dtype=onp.float32))), [R.iarr(rng, (3,))], [0], True, modes=("rev",))
     for dt in (int, bool):
         add("full", "fill value converted to %s (piecewise constant)" % dt.__name__, (lambda m, z, dt=dt: m.full((2, 3), z, dtype=dt) * 1.0 + 0.0 * z), [2.5], [0], False)
         add("full", "array fill value converted to %s" % dt.__name__, (lambda m, z, dt=dt: m.full((2, 3), z, dtype=dt) * 1.0 + 0.0 * z), [R.half_ints(rng, (3,))], [0], False)
